@@ -57,7 +57,7 @@ def run(prog, rep):
              ("tsg::ast::If", "execute_lazy", "execute_lazy", False), ("tsg::ast::ForIn", "execute_lazy", "execute_lazy", False)]
     n = 0
     for ty, fn, handler, required in sites:
-        fl = [f for f in prog.fns.values() if f.self_path == ty and f.name == fn]
+        fl = [f for f in prog.shape_fns() if f.self_path == ty and f.name == fn]
         if len(fl) != 1:
             rep.violation("E2.x-a", "anchor-lost:%s::%s" % (ty, fn), "", "not found")
             continue
@@ -79,7 +79,7 @@ def run(prog, rep):
     rep.rule("E2.x-b", "in nested blocks the context's statement is refreshed from the statement about to run")
     for ty, fn, mode in (("tsg::ast::Scan", "execute", "strict"), ("tsg::ast::If", "execute", "strict"), ("tsg::ast::ForIn", "execute", "strict"),
                          ("tsg::ast::Scan", "execute_lazy", "lazy"), ("tsg::ast::If", "execute_lazy", "lazy"), ("tsg::ast::ForIn", "execute_lazy", "lazy")):
-        fl = [f for f in prog.fns.values() if f.self_path == ty and f.name == fn]
+        fl = [f for f in prog.shape_fns() if f.self_path == ty and f.name == fn]
         if len(fl) != 1:
             continue
         f = fl[0]
@@ -111,7 +111,7 @@ def run(prog, rep):
     # ---- (c) StatementContext::new
     rep.rule("E2.x-c", "StatementContext::new(statement, stanza, full-match node) stores statement text+location, stanza start, node start+kind")
     for ty, fn, idx in (("tsg::ast::Stanza", "execute", "full_match_stanza_capture_index"), ("tsg::ast::Stanza", "execute_lazy", "full_match_file_capture_index")):
-        fl = [f for f in prog.fns.values() if f.self_path == ty and f.name == fn]
+        fl = [f for f in prog.shape_fns() if f.self_path == ty and f.name == fn]
         if len(fl) != 1:
             rep.violation("E2.x-c", "anchor-lost:%s::%s" % (ty, fn), "", "not found")
             continue
@@ -136,7 +136,7 @@ def run(prog, rep):
                 d = dict(zip(ctxs[0]["rv"]["fields"], ctxs[0]["rv"]["ops"]))
                 ok = ok and "StatementContext::new(" in canon(tr.operand(d["error_context"]))
         rep.check(ok, "E2.x-c", "%s :: context creation" % f.id, f.loc(), "StatementContext::new(current statement, self, full-match node of this match)", "the statement context is not created from (statement, stanza, full-match node)")
-    nf = [f for f in prog.fns.values() if f.name == "new" and f.self_path == "tsg::execution::error::StatementContext"]
+    nf = [f for f in prog.shape_fns() if f.name == "new" and f.self_path == "tsg::execution::error::StatementContext"]
     if len(nf) == 1:
         f = nf[0]
         tr = Tracer(f.body)
@@ -150,7 +150,7 @@ def run(prog, rep):
         else:
             detail = "%d aggregates" % len(aggs)
         rep.check(ok, "E2.x-c", "StatementContext::new :: fields", f.loc(), "statement ← {stmt}, statement_location ← stmt.location(), stanza_location ← stanza.range.start, source_location ← node start, node_kind ← node.kind()", "StatementContext::new stores " + detail)
-    us = [f for f in prog.fns.values() if f.name == "update_statement" and f.self_path == "tsg::execution::error::StatementContext"]
+    us = [f for f in prog.shape_fns() if f.name == "update_statement" and f.self_path == "tsg::execution::error::StatementContext"]
     if len(us) == 1:
         f = us[0]
         tr = Tracer(f.body)
@@ -163,7 +163,7 @@ def run(prog, rep):
     # ---- (d) deferred work keeps its origin
     rep.rule("E2.x-d", "deferred statements, thunks and scoped definitions are created with the executing context's error_context; every deferred evaluation re-attaches it")
     nd = 0
-    for f in prog.fns.values():
+    for f in prog.shape_fns():
         if f.body is None or f.file != "src/execution/lazy.rs":
             continue
         tr = None
@@ -185,7 +185,7 @@ def run(prog, rep):
                 ("tsg::execution::lazy::store::LazyStore", "evaluate", r"store::Thunk::force$", r"^Into::into\(upvar:debug_info\.0\)$", 1),
                 ("tsg::execution::lazy::store::LazyStore", "evaluate_all", r"store::Thunk::force$", r"^Into::into\(upvar:debug_info\.0\)$", 1)]
     for ty, fn, callee_pat, ctx_pat, count in ev_sites:
-        fl = [f for f in prog.fns.values() if f.self_path == ty and f.name == fn]
+        fl = [f for f in prog.shape_fns() if f.self_path == ty and f.name == fn]
         if len(fl) != 1:
             rep.violation("E2.x-d", "anchor-lost:%s::%s" % (ty, fn), "", "not found")
             continue
@@ -206,7 +206,7 @@ def run(prog, rep):
     # ---- (e) conflicts name both
     rep.rule("E2.x-e", "DuplicateAttribute / DuplicateVariable found during lazy evaluation are wrapped with the pair (previous, current) context; the pair conversion keeps both entries")
     ne = 0
-    for f in prog.fns.values():
+    for f in prog.shape_fns():
         if f.body is None or f.file not in ("src/execution/lazy/statements.rs", "src/execution/lazy/store.rs"):
             continue
         body = f.body
@@ -227,7 +227,7 @@ def run(prog, rep):
     rep.floor("E2.x-e", ne, 3, "conflict sites in lazy evaluation")
     # the "previous statement" of a conflict is looked up per (node | edge, attribute name), once per attribute
     nk = 0
-    for f in prog.fns.values():
+    for f in prog.shape_fns():
         if f.body is None or f.file != "src/execution/lazy/statements.rs":
             continue
         body = f.body
@@ -245,7 +245,7 @@ def run(prog, rep):
                 rep.check(named and inloop, "E2.x-e", "%s :: previous-writer key" % f.id, sp_str(t["sp"]), "keyed by the element and the attribute's name, recorded for each attribute of the statement",
                           "the previous writer of an attribute is recorded under `%s`%s: a conflict names the last statement that touched the element, not the one that set this attribute" % (kc[:120], "" if inloop else " once per statement"))
     rep.floor("E2.x-e", nk, 2, "previous-writer records")
-    pc = [f for f in prog.fns.values() if f.trait == "std::convert::From" and f.self_path == "tsg::execution::error::Context" and f.name == "from" and "(tsg::execution::error::StatementContext, tsg::execution::error::StatementContext)" in (f.trait_ref or f.id)]
+    pc = [f for f in prog.shape_fns() if f.trait == "std::convert::From" and f.self_path == "tsg::execution::error::Context" and f.name == "from" and "(tsg::execution::error::StatementContext, tsg::execution::error::StatementContext)" in (f.trait_ref or f.id)]
     if len(pc) == 1:
         f = pc[0]
         tr = Tracer(f.body)
@@ -258,7 +258,7 @@ def run(prog, rep):
         rep.violation("E2.x-e", "anchor-lost:From<(StatementContext, StatementContext)>", "", "not found (%d)" % len(pc))
     # ---- (f) with_context arms
     rep.rule("E2.x-f", "with_context: Cancelled unchanged; InContext(Other) wrapped; InContext(statement) kept; everything else wrapped")
-    wc = [f for f in prog.fns.values() if f.name == "with_context" and f.trait == "tsg::execution::error::ResultWithExecutionError"]
+    wc = [f for f in prog.shape_fns() if f.name == "with_context" and f.trait == "tsg::execution::error::ResultWithExecutionError"]
     okf = False
     if len(wc) == 1:
         from ..lib.cfgq import reach_const_aware
@@ -281,7 +281,7 @@ def run(prog, rep):
         rep.violation("E2.x-f", "anchor-lost:with_context", "", "the dispatch of with_context on the error variant was not found")
     # ---- (g) pretty rendering
     rep.rule("E2.x-g", "pretty rendering excerpts the DSL at the statement location, the DSL at the stanza location and the source at the node location")
-    fp = [f for f in prog.fns.values() if f.name == "fmt_pretty" and f.self_path == "tsg::execution::error::StatementContext"]
+    fp = [f for f in prog.shape_fns() if f.name == "fmt_pretty" and f.self_path == "tsg::execution::error::StatementContext"]
     if len(fp) == 1:
         f = fp[0]
         tr = Tracer(f.body)
@@ -298,7 +298,7 @@ def run(prog, rep):
             return re.sub(r"^[&*]*arg:(\w+\.)*", "arg:", x) if re.match(r"^[&*]*arg:(\w+\.)*(tsg_path|tsg|source_path|source)$", x) else x
         norm = [tuple(last(x.replace("Location::to_column_range", "parser::to_column_range")) for x in g) for g in got]
         # … and where they arrive one by one, each caller passes them in the matching positions
-        for cf in prog.fns.values():
+        for cf in prog.shape_fns():
             if cf.body is None:
                 continue
             ctr = None
@@ -320,7 +320,7 @@ def run(prog, rep):
     else:
         rep.violation("E2.x-g", "anchor-lost:fmt_pretty", "", "not found")
     # the excerpt shows the line that the row counts: rows (parser and tree-sitter alike) count '\n' only
-    fs = [f for f in prog.fns.values() if f.name == "from_source" and (f.self_path or "").endswith("parse_error::Excerpt")]
+    fs = [f for f in prog.shape_fns() if f.name == "from_source" and (f.self_path or "").endswith("parse_error::Excerpt")]
     if len(fs) == 1:
         f = fs[0]
         tr = Tracer(f.body)
